@@ -198,8 +198,8 @@ class Coverage(SysTarget):
 
 
 TARGETS = {
-    "codebasin.finder:ParserState.get_setmap": Reports("reports", ("multi", "links", "exclude"), quick_n=150, thorough_n=3000),
-    "codebasin.report:FileTree.insert": TreeReport("tree", ("multi", "links", "exclude"), quick_n=150, thorough_n=3000),
-    "codebasin.coverage.__main__:_compute": Coverage("coverage", ("links", "exclude", "dupes"), quick_n=10, thorough_n=150),
+    "codebasin.finder:ParserState.get_setmap": Reports("reports", ("multi", "links", "exclude", "zerosloc"), quick_n=150, thorough_n=3000),
+    "codebasin.report:FileTree.insert": TreeReport("tree", ("multi", "links", "exclude", "zerosloc"), quick_n=150, thorough_n=3000),
+    "codebasin.coverage.__main__:_compute": Coverage("coverage", ("links", "exclude", "dupes", "zerosloc"), quick_n=10, thorough_n=150),
 }
 TARGETS["codebasin.finder:ParserState.get_setmap"].proved = True
